@@ -62,6 +62,41 @@ pub fn impl_validate(files: &Files) -> Json {
     }
 }
 
+/// validate the project, then report what the traversal / symbol API says about every file
+pub fn impl_walk(files: &Files, with_positions: bool) -> Json {
+    let r = catch_unwind(AssertUnwindSafe(|| {
+        let mut p: Parser<String> = Parser::new();
+        for (id, text) in files {
+            p.add_content(id.clone(), text);
+        }
+        let out = p.validate();
+        let mut ids: Vec<&String> = out.keys().collect();
+        ids.sort();
+        let mut walks = Vec::new();
+        for id in ids {
+            let fr = &out[id];
+            let text = &files.iter().find(|(i, _)| i == id).unwrap().1;
+            if let Some(a) = &fr.ast {
+                walks.push(Json::Arr(vec![Json::s(id.clone()), crate::walk::walk_file(a, text, with_positions)]));
+            }
+        }
+        Json::obj(vec![("outcome", Json::s("ok")), ("out", dump::results(&out)), ("walks", Json::Arr(walks))])
+    }));
+    match r {
+        Ok(j) => j,
+        Err(e) => Json::obj(vec![("outcome", Json::s("panic")), ("msg", Json::s(panic_msg(e)))]),
+    }
+}
+
+pub fn walk_case(files: &Files, with_positions: bool) -> Vec<(&'static str, Json)> {
+    vec![
+        ("op", Json::s("walk")),
+        ("files", files_json(files)),
+        ("positions", Json::Bool(with_positions)),
+        ("impl", impl_walk(files, with_positions)),
+    ]
+}
+
 pub fn validate_case(files: &Files) -> Vec<(&'static str, Json)> {
     vec![("op", Json::s("validate")), ("files", files_json(files)), ("impl", impl_validate(files))]
 }
@@ -321,6 +356,26 @@ pub fn run(suite: &str, thorough: bool, seed: u64, shard: usize, nshards: usize,
                 }
             }
         }
+        // C15/C16/C17: traversal, position lookup and names over validated random projects
+        "walk" | "walkpos" => {
+            let n = share(if thorough { 4000 } else { 120 });
+            for _ in 0..n {
+                let s = rng.next();
+                let mut r = Rng::new(s);
+                let cfg = gen::DocCfg { docs: r.chance(1, 3), max_members: 4, ..Default::default() };
+                let mut proj = gen::gen_project(&mut r, &cfg);
+                if suite == "walkpos" {
+                    proj.truncate(2);
+                }
+                let style = match r.below(3) {
+                    0 => LayoutStyle::Plain,
+                    1 => LayoutStyle::Wild,
+                    _ => LayoutStyle::Tight,
+                };
+                let files = render_project(&proj, style, &mut r);
+                em.case(s, walk_case(&files, suite == "walkpos"));
+            }
+        }
         _ => {
             eprintln!("unknown suite {}", suite);
             std::process::exit(2);
@@ -345,6 +400,10 @@ pub fn rerun(line: &str) -> Option<String> {
     ];
     match op.as_str() {
         "validate" => v.append(&mut validate_case(&files)),
+        "walk" => {
+            let wp = matches!(j.get("positions"), Some(Json::Bool(true)));
+            v.append(&mut walk_case(&files, wp))
+        }
         _ => return None,
     }
     Some(Json::obj(v).to_string())
